@@ -7,16 +7,19 @@ missed = []
 for sid in ids:
     prop = sid.split("-")[0]
     patch = f"{V}/seeded/{sid}/patch.diff"
-    a = subprocess.run(["git", "-C", "/repo", "apply", "--3way", patch], capture_output=True, text=True)
-    if a.returncode != 0:
-        a = subprocess.run(["git", "-C", "/repo", "apply", patch], capture_output=True, text=True)
+    a = subprocess.run(["git", "-C", "/repo", "apply", patch], capture_output=True, text=True)
+    if a.returncode != 0:        # /repo has moved on (fix: commits) since the patch was cut: apply with fuzz, never with --3way (it stages the result)
+        a = subprocess.run("patch -p1 -F3 --no-backup-if-mismatch < " + patch, shell=True, cwd="/repo", capture_output=True, text=True)
     if a.returncode != 0:
         print(sid, "PATCH DOES NOT APPLY", a.stderr[:200]); missed.append(sid); continue
     try:
         r = subprocess.run([V + "/check", prop], capture_output=True, text=True, cwd=V, timeout=3600)
         hit = any(l.startswith("VIOLATION") for l in r.stdout.splitlines())
     finally:
-        subprocess.run(["git", "-C", "/repo", "checkout", "--", "."]); subprocess.run(["git", "-C", "/repo", "reset", "-q"])
+        subprocess.run(["git", "-C", "/repo", "reset", "-q"]); subprocess.run(["git", "-C", "/repo", "checkout", "HEAD", "--", "."])
+        left = subprocess.run(["git", "-C", "/repo", "status", "--porcelain", "--untracked-files=no"], capture_output=True, text=True).stdout.strip()
+        if left:
+            print("!! /repo not restored:", left); sys.exit(2)
     print(sid, "detected" if hit else "MISSED", flush=True)
     if not hit: missed.append(sid)
 print("missed:", missed)
